@@ -82,7 +82,7 @@ def gen_case(rng):
         "read_buf": rng.choice([1, 2, 3, 7, 16, 61, 64, 100, 4096, 8192]),
         "short_reads": rng.random() < 0.4,
         "short_seed": rng.getrandbits(32),
-        "line_length": rng.choice([60, 60, 60, 1, 7, 61]),
+        "line_length": rng.choice([60, 60, 60, 1, 7, 61, 1000, 10 ** 9]),
     }
     return {"fasta": fa, "scaffolds": scaffolds, "bufs": bufs, "knobs": knobs}
 
@@ -264,7 +264,9 @@ def one_buffer(case, root, b, world, want_files=True):
     fi2.get_sequence_iter = mon_seq
     fi2.get_gap_iter = mon_gap
     FastaStream(sink, fi2, line_length=line_length).write_assembly(out_asm)
-    wbound = b + -(-b // line_length) + line_length + 1
+    # one chunk with its line breaks, plus at most one chunk's worth of carried-over
+    # line start; a whole output line is NOT allowed when lines are longer than the buffer
+    wbound = b + -(-b // line_length) + 1 + min(line_length, b)
     # writes larger than the bound are only legal for header lines (">" + name + newline)
     names = {(">" + s.name + "\n").encode() for s in out_asm.scaffolds}
     pos = 0
@@ -274,7 +276,7 @@ def one_buffer(case, root, b, world, want_files=True):
         pos += sz
         if sz > wbound and piece not in names:
             raise Bad("writer_bound", "FastaStream.write",
-                      f"buffer_size={b}: one write of {sz} bytes reached the output stream (bound {wbound}: one chunk with its line breaks)")
+                      f"buffer_size={b}: one write of {sz} bytes reached the output stream (bound {wbound}: one chunk with its line breaks and a carried-over line start)")
     # every user-level read while streaming
     for (kind, req, got) in world.read_logs.get("g.fa", []):
         if got > bound:
@@ -509,7 +511,7 @@ def measure_long(bprime, factor, what, root):
             fi = index_mod.FastaIndex(fa, bprime)
             fi.index = idx
             sc = Scaffold("s")
-            if what == "stream_fwd":
+            if what in ("stream_fwd", "stream_unwrapped"):
                 sc.add_row(Fragment("chr1", 1, L, 1))
             elif what == "stream_rev":
                 sc.add_row(Fragment("chr1", 1, L, -1))
@@ -519,7 +521,7 @@ def measure_long(bprime, factor, what, root):
                 sc.add_row(Fragment("tail", 7, 10, 1))
             asm = Assembly("a")
             asm.add_scaffold(sc)
-            FastaStream(Sink(keep=False), fi).write_assembly(asm)
+            FastaStream(Sink(keep=False), fi, line_length=(10 ** 9 if what == "stream_unwrapped" else 60)).write_assembly(asm)
             fh = fi.__dict__.get("fasta_fileandle")
             if fh is not None:
                 fh.close()
@@ -667,7 +669,7 @@ def large_case(run_seed, tier, which):
         sandbox.remove(root)
 
 
-LONG_WHATS = ["index", "stream_fwd", "stream_rev", "stream_gap", "index_mixed_width", "autoload_warm", "autoload_torn", "cli_fasta"]
+LONG_WHATS = ["index", "stream_fwd", "stream_rev", "stream_gap", "index_mixed_width", "autoload_warm", "autoload_torn", "cli_fasta", "stream_unwrapped"]
 
 
 def long_case(bprime, what, run_seed, tier):
